@@ -4,7 +4,11 @@ Model: coq/Model/Threads.v (hand-written): per-thread namespaces of the two
 module-level singletons (created lazily with exactly the attributes the `ns`
 properties create), per-compiler cell state, one small-step machine per thread whose
 steps are the entries of ExcelCompiler._evaluate.  Theorems: C07_noninterference
-(+ _trace), C07_fresh; Refuted/C07_shared.v shows the dependence on thread-locality.
+(+ _trace), C07_fresh; C07_n_threads, C07_serializable, C07_same_projections,
+C07_steps_commute, C07_result_alone, C07_completion_alone, C07_same_count_same_view,
+C07_warm_equals_fresh, C07_namespace_lazy (Proofs/C07Ser.v, C07Warm.v); the
+dependence on thread-locality: C07_shared_namespace_interferes,
+C07_shared_context_stack_interferes (and Refuted/C07_shared.v).
 
 Tie to the implementation:
 * schedule enumeration on REAL threads: `compiler._evaluate` is wrapped (before first
@@ -20,6 +24,11 @@ Tie to the implementation:
   pairs the extracted model is run under the same schedule and must give the same
   result / pass count / number of entries (thread-local namespaces), and the
   shared-namespace variant is run to show that it does differ;
+* 3 or 4 workloads on as many real threads under a relay (class Relay: an explicit plan
+  of segments "thread p passes c pre-emption points"): every thread is stopped inside
+  its operation before the next one starts, then random short turns, then completion
+  in a random order; each thread must equal its solo run, and all-iterative tuples are
+  run by the extracted model (entry schedn) under the same schedule;
 * brand-new threads: from_file of an iterative model, set_value, evaluate,
   trim_graph must all work;
 * static inventory (Python `ast`, regenerated every run) of module-level and
